@@ -372,8 +372,10 @@ class Consumer(object):
                 # shutdown() was called from inside the processor): commit it
                 return _commit_and_stop(None)
             self._shutdown_d, d = None, self._shutdown_d
+            # Shutdown complete.  Clear the flag before stop() fires the start
+            # Deferred: a callback there may start the consumer again
+            self._shuttingdown = False
             self.stop()
-            self._shuttingdown = False  # Shutdown complete
             d.callback(self._last_processed_offset)
 
         def _handle_shutdown_commit_failure(failure):
@@ -385,8 +387,8 @@ class Consumer(object):
                 return
 
             self._shutdown_d, d = None, self._shutdown_d
+            self._shuttingdown = False  # Shutdown complete (see above)
             self.stop()
-            self._shuttingdown = False  # Shutdown complete
             d.errback(failure)
 
         def _commit_and_stop(result):
